@@ -156,6 +156,41 @@ def check_sequence(seq):
     return None
 
 
+def argument_forms():
+    """decode_number over bytearray / memoryview / tuple-of-ints inputs, encode_number over bool / IntEnum / int-subclass:
+    the answer must be that of the plain bytes / int form."""
+    import enum
+
+    class E(enum.IntEnum):
+        A = 253
+        B = 64009
+
+    class MyInt(int):
+        pass
+
+    enc, dec = _codec()
+    bad = []
+    n = 0
+    for s_ in SEQ_BYTES + (b"\x02\x03", b"\x05\xfe\x07\x02", b"\xfd\xfd\xfd\xfd"):
+        for form in (bytearray, lambda b: memoryview(bytes(b)), lambda b: bytearray(b) + bytearray()):
+            n += 1
+            try:
+                got = dec(form(s_))
+            except Exception as e:  # noqa: BLE001
+                got = f"raised {type(e).__name__}"
+            if got != dec_number(s_):
+                bad.append(f"decode_number({type(form(s_)).__name__} {s_.hex()}) = {got}, the positional formula gives {dec_number(s_)}")
+    for v, plain in ((True, 1), (False, 0), (E.A, 253), (E.B, 64009), (MyInt(P3), P3)):
+        n += 1
+        try:
+            got = enc(v)
+        except Exception as e:  # noqa: BLE001
+            got = f"raised {type(e).__name__}"
+        if got != enc_number(plain):
+            bad.append(f"encode_number({v!r}) = {got!r}, expected {enc_number(plain).hex()}")
+    return n, bad
+
+
 def _seq_cases(depth):
     atoms = [("e", n) for n in SEQ_NUMS] + [("d", b) for b in SEQ_BYTES]
     for d in range(2, depth + 1):
@@ -249,6 +284,11 @@ def run(tier, seed):
         for seq, what in bad:
             violations.append({"key": "sequence:" + ",".join(k for k, _ in seq), "what": what, "case": {"kind": "sequence", "value": [[k, a] for k, a in seq]}})
 
+    n_forms, form_bad = argument_forms()
+    evals += n_forms
+    for w in form_bad[:3]:
+        violations.append({"key": "argument-form:" + w.split("(")[0], "what": w, "case": {"kind": "forms", "value": 0}})
+
     samples = [
         {"n": n, "encoded": enc(n).hex(), "decoded": dec(enc(n))} for n in (0, 252, 253, 64008, 64009, P3 - 1, P3, P4 - 1)
     ] + [{"bytes": s.hex(), "decoded": dec(s)} for s in (b"", b"\x00", b"\xfe\x05", b"\x02\xfe\x09", b"\xff\xff\xff\xff")]
@@ -276,6 +316,9 @@ def run(tier, seed):
 def replay(case):
     loader.install_shims()
     enc, dec = _codec()
+    if case["kind"] == "forms":
+        _, bad = argument_forms()
+        return bad[0] if bad else None
     if case["kind"] == "sequence":
         return check_sequence([(k, a) for k, a in case["value"]])
     if case["kind"] == "encode":
